@@ -93,6 +93,14 @@ class C11(Spec):
                      "(delivery intervals, callbacks after unsubscribe)",)
 
     def generate(self, rng, n, tier):
+        if tier == "search":
+            # free exploration of every scheduling point (the model is not involved): programs only, header carries a seed
+            out = []
+            for _ in range(n):
+                lines = gen_case(rng)
+                nt, nrx = lines[0]
+                out.append(("free", [[nt, nrx, rng.range(1, 10 ** 9)]] + lines[1:1 + nrx + nt]))
+            return out
         return [("mixed", gen_case(rng)) for _ in range(n)]
 
     def nontrivial(self, lines):
